@@ -34,7 +34,8 @@ THEOREMS = [
     "C20_text_is_repr_or_template", "C20_text_plain_template", "C20_text_placeholder", "C20_text_spec_on_none_refuted",
     "C20_total_partial", "C20_csv_accepts_escaped_bytes", "C20_csv_total_refuted", "C20_total_lone_surrogate_refuted",
     "C20_normalize_idempotent", "C20_normalize_first_char", "C20_normalize_valid_on_simple_names",
-    "C20_valid_name_anchor", "C20_csv_read_back",
+    "C20_valid_name_anchor", "C20_csv_reader_takes_writer_dialect", "C20_csv_writer_output_reads_back", "C20_csv_read_back",
+    "C20_csv_read_back_given_delimiter",
 ]
 TS = _pydt.datetime(2020, 1, 2, 3, 4, 5, tzinfo=_pydt.timezone.utc)
 
@@ -1003,6 +1004,7 @@ def read_cases(ctx, rep, rnd, n, workdir, written):
     for data in written:
         files.append((data.decode("utf-8"), ",", None, "writer"))
     sniffed_ok = 0
+    ambiguous = 0
     for i, (text, d, fields, origin) in enumerate(files):
         path = os.path.join(workdir, "r%d.csv" % i)
         with open(path, "w", newline="", encoding="utf-8") as f:
@@ -1028,19 +1030,22 @@ def read_cases(ctx, rep, rnd, n, workdir, written):
         ok = err is None and cells_got == cells_want
         ctx.count_case(("read", origin, d, text), nontrivial=True)
         if not ok:
-            # does the dialect csv.Sniffer guesses from the first 1024 characters differ from the file's dialect?
+            # A file CsvfileWriter wrote, or any comma-separated file whose first row consists of field names, MUST read
+            # back.  Only for hand-made files in another dialect is the stdlib sniffer the oracle: when its guess for the
+            # sample the reader hands it differs from the file's dialect the content counts as ambiguous.
             try:
-                dia = csv.Sniffer().sniff(text[:1024])
+                dia = csv.Sniffer().sniff(text[:1024].replace("\r\n", "\n"))
                 sniffed = (dia.delimiter, dia.quotechar, bool(dia.doublequote), bool(dia.skipinitialspace))
             except csv.Error as e:
                 sniffed = "csv.Error: %s" % e
-            true_dialect = (d, '"', True, False)
-            misread = sniffed != true_dialect
-            what = "CsvfileReader %s on a CSV file %s (delimiter %r; csv.Sniffer guesses %r): %r, expected the text values %r" % (
+            if origin == "hand" and d != "," and sniffed != (d, '"', True, False):
+                ambiguous += 1
+                continue
+            what = "CsvfileReader %s on a CSV file %s (delimiter %r): %r, expected the text values %r" % (
                 "raised " + err if err else "returns other values", "written by CsvfileWriter" if origin == "writer" else "with unambiguous content",
-                d, sniffed, None if cells_got is None else cells_got[:3], cells_want[:3])
-            rep.fail(dict(writer="reader", cls="sniffer-misreads-dialect" if misread else ("raises" if err else "values-differ")),
-                     what, dict(error=err, got=cells_got, sniffed=repr(sniffed), **meta))
+                d, None if cells_got is None else cells_got[:3], cells_want[:3])
+            rep.fail(dict(writer="reader", cls="raises" if err else "values-differ"), what,
+                     dict(error=err, got=cells_got, sniffed=repr(sniffed), **meta))
             continue
         sniffed_ok += 1
         impl = "(Some (%s, %s))" % (clist(ct(k) for k in names),
@@ -1088,16 +1093,6 @@ def replay_witnesses(ctx, kf, workdir):
     outs = [run_writer(sch, p("w5." + sch), [D(s="\ud800", n=1, _generated=TS)], {"format_spec": "{s}"} if sch == "text" else {})[2]
             for sch in ("csvfile", "line", "text")]
     hit("C20-unencodable-surrogate", outs == ["UnicodeEncodeError"] * 3, "exceptions %r" % (outs,))
-    # 8 the reader's dialect sniffing fails on the writer's own output: s,u CRLF z,"a,b" CRLF
-    from flow.record import RecordReader
-    U = __import__("flow.record", fromlist=["RecordDescriptor"]).RecordDescriptor("w/two", [("string", "s"), ("string", "u")])
-    data, err, en = run_writer("csvfile", p("w8.csv"), [U(s="z", u="a,b", _generated=TS)], {"fields": "s,u"})
-    try:
-        with RecordReader("csvfile://" + p("w8.csv")) as rd:
-            back = [[getattr(r, k) for k in r._desc.fields] for r in rd]
-    except Exception as e:  # noqa
-        back = type(e).__name__
-    hit("C20-reader-sniffer-misreads-writer-output", data == b's,u\r\nz,"a,b"\r\n' and back != [["z", "a,b"]], "read back %r" % (back,))
     return seen
 
 
@@ -1136,6 +1131,23 @@ def regression_checks(rep, workdir, only=None):
                      "CsvfileWriter on GroupedRecord('grp', [<w/named name='field-value'>]) with fields=name: %s, expected rows "
                      "[['name'], ['field-value']]" % (err or "rows %r" % (rows,)),
                      dict(kind="regression", which="grouped-name", error=err, got=rows))
+    if only in (None, "reader-dialect"):
+        from flow.record import RecordReader
+        U = RecordDescriptor("w/two", [("string", "s"), ("string", "u")])
+        for o, rows in (({"fields": "s,u"}, [("z", "a,b")]), ({"fields": "_source,s,u"}, [("plain", "x"), ("a,b", "'q'")]),
+                        ({}, [(" lead", 'q"q')])):
+            recs = [U(s=a, u=b, _source="src", _generated=TS) for a, b in rows]
+            data, err, en = run_writer("csvfile", p("g5.csv"), recs, o)
+            try:
+                with RecordReader("csvfile://" + p("g5.csv")) as rd:
+                    back = [[getattr(r, k) for k in r._desc.fields] for r in rd]
+            except Exception as e:  # noqa
+                back = "%s: %s" % (type(e).__name__, e)
+            if data is None or back != [list(x) for x in rows]:
+                rep.fail(dict(writer="reader", cls="values-differ"),
+                         "CsvfileReader on the file CsvfileWriter(%r) wrote for <w/two s,u> = %r (bytes %r): %r, expected the text values back" % (
+                             o, rows, data, back), dict(kind="regression", which="reader-dialect", opts=o, rows=rows, got=repr(back)))
+                break
     if only in (None, "nested-group-name"):
         N = RecordDescriptor("w/named4", [("string", "name"), ("varint", "records"), ("string", "descriptors"), ("string", "flat_fields")])
         O = RecordDescriptor("w/other", [("string", "x")])
@@ -1415,8 +1427,8 @@ def correspondence(ctx, rep, cfgname="gen_cfg", extra_import=" Gen_text", with_e
         rt, rm, sniffed, total = read_cases(ctx, rep, rnd, 24 if ctx.tier == "quick" else 240, workdir, written)
         terms += rt
         metas += rm
-        ctx.notes.append("CSV read-back: %d of %d files read back with the same text values (the others: known finding, csv.Sniffer "
-                         "misjudges the dialect)" % (sniffed, total))
+        ctx.notes.append("CSV read-back: %d of %d files read back with the same text values (the others: hand-made files in a "
+                         "non-comma dialect that csv.Sniffer does not identify = ambiguous content)" % (sniffed, total))
         if sniffed * 2 < total:
             ctx.violation("csv read-back check is vacuous: only %d of %d generated files read back" % (sniffed, total),
                           dict(kind="vacuous"), no_input=True)
@@ -1487,8 +1499,9 @@ def run(ctx):
         "CPython's UTF-8 encoder with the strict and surrogateescape handlers is a concrete Gallina model (utf8), validated by execution",
         "the text forms str(v), repr(v), format(v, spec) of field VALUES are inputs of the model (computed by the real field "
         "types); str.format_map's template grammar is modelled for plain names, !r/!s/!a and un-nested specs only",
-        "CSV read-back compares with the file read in the dialect it was written in; a mismatch is attributed to the "
-        "known finding only when csv.Sniffer's guess for the first 1024 characters differs from that dialect",
+        "CSV read-back: every file CsvfileWriter wrote and every comma-separated file with a header of field names must read "
+        "back unchanged; only for hand-made files in another dialect is csv.Sniffer an oracle (a wrong guess = ambiguous content)",
+        "gen_reader_excel_on_field_names is observed on constructed files that mislead csv.Sniffer (fail closed)",
         "str.isdecimal is the generated table of this interpreter's Unicode database",
         "C20_csv_layout assumes keys_agree: records with equal descriptors have the same selected field names (the slots "
         "of a record class are a function of its descriptor); the model itself (csvw_run) does not assume it",
